@@ -1386,7 +1386,7 @@ def apply_text_layout(
                 if s.sc:
                     line.append(b"".rjust(s.sc))
                     attrrange(s.offs, s.offs, s.sc)
-            else:
+            elif s.sc:
                 line.append(b"".rjust(s.sc))
                 linea.append((None, s.sc))
                 linec.append((None, s.sc))
